@@ -639,7 +639,8 @@ def run_cluster(case):
             k = psi.get_cluster(where_sites(s, w), **{**ckw, "gauges": None})
             if k.num_tensors != n:
                 raise Reject("cluster does not span the network")
-    info = dict(expo=bool(s.expo), route=route, nmz=str(normalized), kind=kind, gauged=gauged, mode=case["mode"])
+    info = dict(expo=bool(s.expo), raw=normalized is not True, route=route, nmz=str(normalized), kind=kind, gauged=gauged,
+                mode=case["mode"])
     cls = base_cls(s, w0) + ["route=" + route, "kind=" + kind, f"gauged={gauged}", "mode=" + case["mode"],
                              f"max_distance={md if kind == 'tree' else 'span'}", f"normalized={normalized}",
                              "shape=" + desc["shape"]]
@@ -827,7 +828,8 @@ def run_mps_local(case):
         c = case["center"] % L
         info_arg = {}
         psi.canonicalize_(c, info=info_arg)  # the state is unchanged, its canonical record is tracked in info
-    info = dict(expo=bool(s.expo), route=route, nmz=str(normalized), cyclic=s.desc["cyclic"], info=case["info"])
+    info = dict(expo=bool(s.expo), raw=not normalized, envs="envs" in route, route=route, nmz=str(normalized),
+                cyclic=s.desc["cyclic"], info=case["info"])
     cls = base_cls(s, w0) + ["route=" + route, f"normalized={normalized}", "cyclic" if s.desc["cyclic"] else "open",
                              "info=" + case["info"]]
     ckw = {} if case["optimize"] is None else {"optimize": case["optimize"]}
@@ -1102,9 +1104,10 @@ def run_peps_local(case):
             if not (isinstance(v, tuple) and len(v) == 2):
                 raise Violation("return-shape", got=repr(type(v)), **info)
             x, nrm = v
-            e = max(e, check_scalar(x, r, fl, TOL, clause="expec", **info))
+            # the pair is (Tr[rho_p O], Tr[rho_p]) of the *unnormalised* plaquette density matrix, whatever `normalized`
+            e = max(e, check_scalar(x, r, fl, TOL, clause="expec", raw=True, **info))
             if nb:
-                e = max(e, check_scalar(nrm, s.nrm, s.nrm, TOL, clause="norm", **info))
+                e = max(e, check_scalar(nrm, s.nrm, s.nrm, TOL, clause="norm", raw=True, **info))
             elif nrm is not None:
                 raise Violation("return-shape", got="norm given although normalized=False", **info)
     else:
@@ -1112,7 +1115,7 @@ def run_peps_local(case):
         fl = sum(f for _, f in refs.values())
         if nb:
             ref, fl = ref / s.nrm, fl / s.nrm
-        e = check_scalar(res, ref, fl, TOL, **info)
+        e = check_scalar(res, ref, fl, TOL, raw=not nb, **info)
     return {"nt": is_nt(s, w0), "cls": cls, "err": e}
 
 
@@ -1176,7 +1179,8 @@ def run_peps3d_local(case):
     d = s.desc
     route, normalized = case["route"], case["normalized"]
     w0 = case["wheres"][0]
-    info = dict(expo=bool(s.expo), route="3d." + route, nmz=str(normalized), flatten=case["flatten"], Lz=d["Lz"])
+    info = dict(expo=bool(s.expo), raw=not normalized, route="3d." + route, nmz=str(normalized), flatten=case["flatten"],
+                Lz=d["Lz"])
     cls = base_cls(s, w0) + ["route=" + route, f"{d['Lx']}x{d['Ly']}x{d['Lz']}", f"flatten={case['flatten']}",
                              f"normalized={normalized}", f"symmetrized={case['symmetrized']}"]
     kw = dict(max_bond=256, cutoff=0.0, normalized=normalized, flatten=case["flatten"], symmetrized=case["symmetrized"])
